@@ -456,3 +456,73 @@ pub fn sink_routes(ty: u64, ops: &[Op], bytes: &[u8]) -> Result<(), String> {
     xcount("sink_routes_short_interrupt_staging_bufwriter");
     Ok(())
 }
+
+
+/// The same calls STREAMED to writers that take a few bytes per call, interrupt, or cut every write at a
+/// block boundary. Where such a writer ends up with other bytes than the in-memory build, `answer` is asked
+/// of the file it holds and must equal `expected` (the answer of the in-memory build): what a query returns
+/// depends on the content, not on how the sink accepted the bytes. (Equal bytes answer equally: nothing to ask.)
+pub fn streamed_files_answer(ty: u64, ops: &[Op], bytes: &[u8], expected: &str, answer: &dyn Fn(&Fst<Vec<u8>>) -> String) -> Result<(), String> {
+    struct BlockSink {
+        buf: Vec<u8>,
+        block: usize,
+    }
+    impl std::io::Write for BlockSink {
+        fn write(&mut self, b: &[u8]) -> std::io::Result<usize> {
+            let room = self.block - self.buf.len() % self.block;
+            let n = b.len().min(room);
+            self.buf.extend_from_slice(&b[..n]);
+            Ok(n)
+        }
+        fn flush(&mut self) -> std::io::Result<()> {
+            Ok(())
+        }
+    }
+    fn drive<W: std::io::Write>(w: W, ty: u64, ops: &[Op]) -> bool {
+        let mut b = match fst::raw::Builder::new_type(w, ty) {
+            Ok(b) => b,
+            Err(_) => return false,
+        };
+        for o in ops {
+            let r = match o {
+                Op::Add(k) => b.add(k),
+                Op::Insert(k, v) => b.insert(k, *v),
+            };
+            if r.is_err() {
+                return false;
+            }
+        }
+        b.finish().is_ok()
+    }
+    let mut files: Vec<(String, Option<Vec<u8>>)> = vec![];
+    for (cap, intr) in [(1usize, 0usize), (3, 4)] {
+        let mut sk = crate::c08::CapSink::new(cap, intr);
+        let ok = drive(&mut sk, ty, ops);
+        files.push((format!("a writer taking {} byte(s) per call{}", cap, if intr > 0 { ", interrupting" } else { "" }), if ok { Some(sk.buf) } else { None }));
+    }
+    for block in [7usize, 512] {
+        let mut sk = BlockSink { buf: vec![], block };
+        let ok = drive(&mut sk, ty, ops);
+        files.push((format!("a writer that cuts writes at {}-byte blocks", block), if ok { Some(sk.buf) } else { None }));
+    }
+    xcount("queries_on_files_streamed_to_short_writers");
+    for (name, file) in files {
+        let file = match file {
+            None => return Err(format!("streamed to {}: an accepted call or finish fails", name)),
+            Some(f) => f,
+        };
+        if file == bytes {
+            continue;
+        }
+        let got = std::panic::catch_unwind(std::panic::AssertUnwindSafe(|| match Fst::new(file) {
+            Ok(f) => answer(&f),
+            Err(e) => format!("does not open: {}", e),
+        }))
+        .unwrap_or_else(|_| "PANIC".into());
+        if got != expected {
+            let cut = |t: &str| t.chars().take(300).collect::<String>();
+            return Err(format!("streamed to {}: the file answers {} but the in-memory build {}", name, cut(&got), cut(expected)));
+        }
+    }
+    Ok(())
+}
